@@ -71,6 +71,7 @@ func (l *ledGen) catchUp() {
 		l.synced = []string{"G"}
 	}
 	l.queue = nil
+	l.banPool()
 	l.op("restart", "restart")
 	isPrefix := len(l.synced) <= len(l.chain)
 	for i := 0; isPrefix && i < len(l.synced); i++ {
@@ -173,6 +174,7 @@ func (l *ledGen) reannounce() {
 		return
 	}
 	l.g.Stats["notify-reannounce"]++
+	l.banPool()
 	l.noteNotify(b)
 	l.op("notify", "notify %s", b)
 }
@@ -207,4 +209,15 @@ func (l *ledGen) cbDeposit() string {
 		fr = l.cbm - 1
 	}
 	return fmt.Sprintf("%s:%d:stk:%d", l.someAddr(w), 50+l.r.Int63n(100), fr)
+}
+
+// banPool: a step that rolls the WALLET back while the node's chain stays (duplicate notification of an old
+// block, restart) can make a pending transaction vanish in the wallet although it is still valid on the node
+// (Rollback purges the pending spenders of a rolled-back wallet coinbase output); its re-broadcast is then
+// ignored while the follower's volatile seen-set holds the id. Re-delivery of a vanished transaction is
+// outside C09's compared domain (notes/C09.md), so such transactions are not delivered again.
+func (l *ledGen) banPool() {
+	for _, p := range l.pool {
+		l.dead[p.name] = true
+	}
 }
